@@ -43,9 +43,47 @@ def real_identifier(kind, name_term):
     out = []
     for pc, (st, val), holes in symproxy.explore(fn):
         if st != "ok":
-            raise HarnessError(f"symbolic run of the name visitors failed: {st} {val!r}")
+            raise NotSymbolic(f"{st} {val!r}")
         out.append((pc, symproxy.to_str_term(val, holes)))
     return out
+
+
+class NotSymbolic(Exception):
+    pass
+
+
+TABLE_ALPHABET = "AB19"
+
+
+def table_names(maxlen=3):
+    out = []
+    for n in range(1, maxlen + 1):
+        for tail in itertools.product(TABLE_ALPHABET, repeat=n - 1):
+            for first in "AB":
+                out.append(first + "".join(tail))
+    return out
+
+
+def tabulated_identifier(kind, name_term, names):
+    """fallback when the visitors cannot be run on a symbolic string: the real visitor code on every name of a finite
+    table; the result is an If-chain over the table (the queries then range over the table only)"""
+    from coco.b09 import parser as P
+    from coco.b09.elements import BasicExpressionList, BasicLiteral
+    from coco.b09.grammar import grammar
+
+    term = z3.StringVal("")
+    for nm in names:
+        bv = P.BasicVisitor()
+        if kind in ("num", "numarr"):
+            v = bv.visit_var(Node(grammar["var"], nm, 0, len(nm)), [])
+        else:
+            v = bv.visit_str_var(Node(grammar["str_var"], nm + "$", 0, len(nm) + 1), [])
+        if kind == "numarr":
+            v = bv.visit_array_ref_exp(None, [v, "", BasicExpressionList([BasicLiteral(1.0)])]).var
+        elif kind == "strarr":
+            v = bv.visit_str_array_ref_exp(None, [v, "", BasicExpressionList([BasicLiteral(1.0)])]).var
+        term = z3.If(name_term == z3.StringVal(nm), z3.StringVal(v.basic09_text(0)), term)
+    return term
 
 
 def ite_of_paths(paths):
@@ -165,11 +203,29 @@ def run(tier):
 
     n1, n2 = z3.String("n1"), z3.String("n2")
     ids = {}
-    for k in KINDS:
-        for nm, n in (("n1", n1), ("n2", n2)):
-            paths = real_identifier(k, n)
-            ctx.stats["states"] += len(paths)
-            ids[(k, nm)] = ite_of_paths(paths)
+    table = None
+    try:
+        for k in KINDS:
+            for nm, n in (("n1", n1), ("n2", n2)):
+                paths = real_identifier(k, n)
+                ctx.stats["states"] += len(paths)
+                ids[(k, nm)] = ite_of_paths(paths)
+    except NotSymbolic as e:
+        # the visitors use an operation the string proxy does not support (e.g. a compiled regex): tabulate them
+        table = [t for t in table_names(3) if grammar["var"].re.fullmatch(t)]
+        ctx.bounds["identifier_function"] = f"TABULATED over {len(table)} names (alphabet {TABLE_ALPHABET}, length <= 3): symbolic run impossible ({e})"
+        ctx.notes.append("name visitors could not be executed on a symbolic string; queries range over the tabulated names only")
+        for k in KINDS:
+            for nm, n in (("n1", n1), ("n2", n2)):
+                ids[(k, nm)] = tabulated_identifier(k, n, table)
+                ctx.stats["states"] += len(table)
+    _name_ok = name_ok
+
+    def name_ok(n, kind):  # noqa: F811
+        base = _name_ok(n, kind)
+        if table is not None:
+            base = base + [z3.Or(*[n == z3.StringVal(t) for t in table])]
+        return base
     pre2 = lambda n: z3.SubString(n, 0, 2)  # noqa: E731  Color BASIC: the first two characters are significant
 
     def carrier(kind, name):
